@@ -506,11 +506,14 @@ func (c *conflictCast) get(role string) []byte {
 //	X  (sender acc2, cosigner acc6) names victims "by-sender" (signed by acc2),
 //	   "by-cosigner" (signed by acc6) and "second-signer" (sender acc1, second signer acc2)
 //	Y  (sender acc5, a stranger)    names "by-stranger" (signed by acc2)
-func conflictsTpl(cast *conflictCast) chainx.Tpl {
+func conflictsTpl(cast *conflictCast) chainx.Tpl { return conflictsTplVUB(cast, 20) }
+
+// conflictsTplVUB: the victims are valid until (height before the block) + vubDelta.
+func conflictsTplVUB(cast *conflictCast, vubDelta uint32) chainx.Tpl {
 	return chainx.Tpl{Name: "c07-conflicts", Build: func(w *chainx.World) ([]*transaction.Transaction, error) {
 		n := w.N
 		mk := func(role string, signers ...*acct) (*transaction.Transaction, error) {
-			tx, _, err := build(n, &txSpec{Label: "victim-" + role, Signers: signers, Script: nops(3), SysFee: gas / 10, VUB: n.BC.BlockHeight() + 20})
+			tx, _, err := build(n, &txSpec{Label: "victim-" + role, Signers: signers, Script: nops(3), SysFee: gas / 10, VUB: n.BC.BlockHeight() + vubDelta})
 			if err != nil {
 				return nil, err
 			}
@@ -570,6 +573,7 @@ type state struct {
 	Extra     map[util.Uint160]bool  // contracts deployed by the history (beyond UA and UB)
 	NotaryAcc int                    // account designated as the notary node (0: account 4)
 	Multi     bool                   // multi-validator family: the committee is taken from the member list
+	Cast      *conflictCast          // the Conflicts cast of the history (nil: the one of its scenario)
 }
 
 func famSingle(extra func(*config.Blockchain)) chainx.Family {
